@@ -243,7 +243,7 @@ attempt("namespaces", namespaces)
 print(json.dumps(out))
 """
 
-TABLES = ["handlers", "ignored", "browserImageTypes", "instrRegexes", "symRegexes", "imageExtensions", "dingbats", "defaultStyleMapText",
+TABLES = ["handlers", "ignored", "browserImageTypes", "instrRegexes", "instrRegexModes", "symRegexes", "imageExtensions", "dingbats", "defaultStyleMapText",
           "voidTagNames", "namespaces", "escapeTable", "tokenRules"]
 
 
@@ -264,7 +264,7 @@ def ast_tables(repo):
         body = parse(repo, "mammoth/docx/body_xml.py")
     except Exception as e:  # noqa
         body = None
-        for k in ("handlers", "ignored", "browserImageTypes", "instrRegexes", "symRegexes"):
+        for k in ("handlers", "ignored", "browserImageTypes", "instrRegexes", "instrRegexModes", "symRegexes"):
             t[k] = e
 
     def handlers():
@@ -303,11 +303,24 @@ def ast_tables(repo):
                 raise ValueError("no pattern found for " + func)
             return regs
         return f
+    def regex_modes(func):
+        # HOW the patterns are applied: the names of the matching calls (`re.match(p, s)`, or `compiled.match(s)` when the
+        # patterns were hoisted into `re.compile`) inside the function (as a sorted set).  `match` anchors at the start
+        # only; a change to `search` / `fullmatch` changes which instructions are recognised without changing a pattern.
+        def f():
+            fn = find_func(body, func)
+            calls = sorted(set(n.func.attr for n in ast.walk(fn)
+                               if isinstance(n, ast.Call) and isinstance(n.func, ast.Attribute) and n.func.attr in ("match", "fullmatch", "search")))
+            if not calls:
+                raise ValueError("no matching call found in " + func)
+            return calls   # the SET of modes in use (a loop over compiled patterns has one call for all three)
+        return f
     if body is not None:
         attempt("handlers", handlers)
         attempt("ignored", lambda: const_seq(find_assign(body, "_ignored_elements"), "_ignored_elements"))
         attempt("browserImageTypes", browser)
         attempt("instrRegexes", regexes("parse_instr_text", ["HYPERLINK", "FORMCHECKBOX"]))
+        attempt("instrRegexModes", regex_modes("parse_instr_text"))
         attempt("symRegexes", regexes("symbol", ["F0"]))
     attempt("imageExtensions", lambda: sorted(ast.literal_eval(find_assign(parse(repo, "mammoth/docx/content_types_xml.py"), "_image_content_types")).items()))
     attempt("dingbats", lambda: sorted(ast.literal_eval(find_assign(parse(repo, "mammoth/docx/dingbats.py"), "dingbats")).items()))
@@ -365,7 +378,7 @@ def runtime_tables(repo):
 ORDER = {
     "handlers": ("runtime", "ast"), "ignored": ("runtime", "ast"), "imageExtensions": ("runtime", "ast"), "dingbats": ("runtime", "ast"),
     "voidTagNames": ("runtime", "ast"), "namespaces": ("runtime", "ast"), "escapeTable": ("runtime",), "tokenRules": ("runtime",),
-    "browserImageTypes": ("ast",), "instrRegexes": ("ast",), "symRegexes": ("ast",), "defaultStyleMapText": ("ast",),
+    "browserImageTypes": ("ast",), "instrRegexes": ("ast",), "instrRegexModes": ("ast",), "symRegexes": ("ast",), "defaultStyleMapText": ("ast",),
 }
 
 
@@ -448,6 +461,7 @@ def render(g):
     L.append(",\n".join("  (%s, %s)" % (lean_str(k), lean_str(v)) for k, v in g["tokenRules"]) + "]")
     L.append("")
     L.append("def instrRegexes : List Str := [" + ", ".join(lean_str(x) for x in g["instrRegexes"]) + "]")
+    L.append("def instrRegexModes : List Str := [" + ", ".join(lean_str(x) for x in g["instrRegexModes"]) + "]")
     L.append("def symRegexes : List Str := [" + ", ".join(lean_str(x) for x in g["symRegexes"]) + "]")
     L.append("")
     L.append("def defaultStyleMapText : Str := " + lean_str(g["defaultStyleMapText"]))
